@@ -145,6 +145,16 @@ CHECKS = {
               "(schedule invariant over histories), numeric distinctness of rho values."),
         note=TRUST + "; rhomax >= 0.84 (smaller: C01 known finding); pull/receive_reward alternate",
         ref="DESIGN.md section 4-C10"),
+    "C11": dict(
+        engine="E7 idioms + E3 + E2 cfg",
+        technique="arg-max fold recognition + sympy equivalence of index/radius formulas + structural analysis of the hand-over loop",
+        text=("Static necessary conditions: pull is an unfiltered arg-max over all active arms of mean + 2*sqrt(8*phase/(2+pulls)); "
+              "the arm's mean is a running mean over its own count; refinement happens on the pulled arm's cell exactly when the "
+              "radius <= nu*rho^depth; after refinement every child either takes the arm over (at most one, only if the arm lies in its "
+              "closed box in every dimension) or gets a new arm at its centre; arms are never removed; initially layer 1 is covered. "
+              "Coverage as a geometric run-time fact follows with C02 and is NOT observed."),
+        note=TRUST + "; C02 tiling lemma; positive parameters",
+        ref="DESIGN.md section 4-C11"),
 }
 
 NOT_YET = "checker under construction in this round (see DESIGN.md section 0 for the clause it will decide)"
